@@ -155,7 +155,9 @@ void cm_chain_case(Ctx &c) {
     int steps = 5 + int(c.rng.below(c.thorough() ? 14 : 8));
     bool down = c.rng.chance(2, 3);
     std::vector<K> master(n0);
-    {
+    const bool irregular = c.rng.chance(1, 2); // a segment every few keys: several hundred thousand segments per index
+    if (irregular) master = gen_irregular_keys<K>(c.rng, n0);
+    else {
         uint64_t cur = c.rng.below(1000), maxstep = std::max<uint64_t>(1, std::min<uint64_t>(D::R / n0, c.rng.pick<uint64_t>({3, 40, 100000})));
         for (auto &x : master) { x = D::to_key(cur); cur = sat_add(cur, c.rng.below(maxstep + 1), D::R); }
     }
@@ -190,7 +192,8 @@ void cm_chain_case(Ctx &c) {
         auto expected = answers(*src, sizes[k]);
         bool moved = k % 2 == 0;
         if constexpr (std::is_move_assignable_v<Idx> && std::is_copy_assignable_v<Idx>) {
-            if (moved) *dst = std::move(*src);
+            if (k % 5 == 4) dst.reset(new Idx(*src)); // now and then the long-lived object is replaced by a copy-constructed one
+            else if (moved) *dst = std::move(*src);
             else *dst = *src;
         } else if constexpr (std::is_copy_assignable_v<Idx>) *dst = *src;
         else return;
@@ -200,12 +203,14 @@ void cm_chain_case(Ctx &c) {
         if (got != expected) {
             size_t i = 0;
             while (i < std::min(got.size(), expected.size()) && got[i] == expected[i]) ++i;
-            c.violation("copy_answers_differ", J().str("operation", moved ? "move_assign_over_populated" : "copy_assign_over_populated").str("when", "assignment_chain")
+            c.violation("copy_answers_differ", J().str("operation", k % 5 == 4 ? "copy_construct_replacing_populated" : moved ? "move_assign_over_populated" : "copy_assign_over_populated").str("when", "assignment_chain")
                                                    .num("step", k).num("previous_size", sizes[k - 1]).num("assigned_size", sizes[k]).num("first_differing_answer", i));
             break;
         }
     }
     c.count("assignment_chains");
+    if (irregular) c.count("assignment_chains_over_irregular_keys");
+    c.maxc("max_chain_segments", dst->segments_count());
     c.count("chain_steps", sizes.size() - 1);
     c.count("answers_compared", compared);
     c.maxc("max_chain_index_size", n0);
@@ -314,7 +319,7 @@ void cm_dyn_case(Ctx &c) {
 }
 
 #define VF_CM_STATIC(NAME, K, ...) VF_REGISTER(std::string("cm/") + NAME, (&::vf::cm_static_case<K, __VA_ARGS__>), 1.0)
-#define VF_CM_CHAIN(NAME, K, ...) VF_REGISTER(std::string("cm/") + NAME + "#chain", (&::vf::cm_chain_case<K, __VA_ARGS__>), 0.008)
+#define VF_CM_CHAIN(NAME, K, ...) VF_REGISTER(std::string("cm/") + NAME + "#chain", (&::vf::cm_chain_case<K, __VA_ARGS__>), 0.016)
 #define VF_CM_MD(D, T, E) VF_REGISTER(std::string("cm/md,d" #D ",") + ::vf::KT<T>::name() + ",e" #E, (&::vf::cm_md_case<D, T, E>), 1.0)
 #define VF_CM_DYN(NAME, K, V, ...) VF_REGISTER(std::string("cm/dyn,") + NAME, (&::vf::cm_dyn_case<K, V, __VA_ARGS__>), 1.0)
 
